@@ -545,8 +545,17 @@ def run_case(case):
         else:
             n, gedges = a["n"], [sorted(e) for e in a["edges"]]
             G = nx.Graph()
-            G.add_nodes_from(range(n))
-            G.add_edges_from(gedges)
+            # the same graph in an arbitrary construction order (vertex order, edge order, edge orientation): the
+            # cliques of a graph do not depend on how it was built
+            import random as _random
+            rr = _random.Random(seed)
+            vs = list(range(n))
+            ins = [list(e) if rr.random() < 0.5 else list(e)[::-1] for e in gedges]
+            if rr.random() < 0.7:
+                rr.shuffle(vs)
+                rr.shuffle(ins)
+            G.add_nodes_from(vs)
+            G.add_edges_from(ins)
             if f == "flag_complex":
                 H, ex, rec = guarded(lambda: xgi.flag_complex(G, max_order=mo, ps=ps, seed=seed))
             else:
